@@ -85,3 +85,29 @@ Theorem C20_mapped_basin_history :
     fst (hquery (hrun (binit bm vals) ops) w) = spec_b bm vals w.
 Proof. exact basin_history. Qed.
 Print Assumptions C20_mapped_basin_history.
+
+(* Chunk-wise reduction over the HDF5 chunks of a dataset (any chunking, any
+   distribution of NaN/inf): extrema of chunk extrema and the mean of chunk
+   means weighted by the numbers of non-NaN values equal the summaries of the
+   data; the unweighted mean of chunk means does not (seeded change C20-5). *)
+Theorem C20_chunkwise_min :
+  forall chunks : list (list fv), chunk_min chunks = nanmin_l (concat chunks).
+Proof. exact chunk_min_ok. Qed.
+Print Assumptions C20_chunkwise_min.
+
+Theorem C20_chunkwise_max :
+  forall chunks : list (list fv), chunk_max chunks = nanmax_l (concat chunks).
+Proof. exact chunk_max_ok. Qed.
+Print Assumptions C20_chunkwise_max.
+
+Theorem C20_chunkwise_weighted_mean :
+  forall chunks : list (list fv),
+    mv_eq (chunk_mean_weighted chunks) (nanmean_l (concat chunks)).
+Proof. exact chunk_mean_weighted_ok. Qed.
+Print Assumptions C20_chunkwise_weighted_mean.
+
+Theorem C20_chunkwise_unweighted_mean_refuted :
+  exists chunks : list (list fv),
+    ~ mv_eq (chunk_mean_unweighted chunks) (nanmean_l (concat chunks)).
+Proof. exact chunk_mean_unweighted_refuted. Qed.
+Print Assumptions C20_chunkwise_unweighted_mean_refuted.
